@@ -246,6 +246,24 @@ def run(chk):
     chk.add_mc("MC_Scrollable", r)
     if not r.ok:
         chk.reject("C20.model." + str(r.violated), {"model": "Scrollable"}, {"tlc_trace": r.trace[-5:]})
+    # ---- unbounded: Apalache discharges an inductive invariant of the position state machine for ALL integers (ScrollableInd.tla) ----
+    import concurrent.futures as cf
+
+    obligations = [("base", "Init", "IndInv", 0, "NoError"), ("step", "IndInit", "IndInv", 1, "NoError"), ("implies_safe", "IndInit", "Safe", 0, "NoError")]
+    if not quick:
+        obligations.append(("step_refutes_too_strong", "IndInit", "NeverAtEnd", 1, "Error"))
+    with cf.ThreadPoolExecutor(len(obligations)) as ex:
+        futs = [(ob, ex.submit(tlc.apalache, "ScrollableInd", ob[1], ob[2], ob[3], 240)) for ob in obligations]
+        apa = []
+        for ob, f in futs:
+            res = f.result()
+            res["obligation"], res["expected"] = ob[0], ob[4]
+            apa.append(res)
+            if res["outcome"] == "unavailable":
+                chk.vacuity.append("apalache." + ob[0] + " did not run")
+            elif res["outcome"] != ob[4]:
+                chk.reject("C20.model.apalache." + ob[0], {"model": "ScrollableInd", "outcome": res["outcome"]}, {"apalache": res})
+    chk.cov["apalache_inductive"] = apa
     traces = []
     # ---- spec -> code: every (total, h, p) for the thumb geometry (sweep p upwards: monotonicity) ----
     maxt, maxh = (9, 6) if quick else (14, 9)
